@@ -17,7 +17,7 @@ META = dict(
     text="histories over {genuine with state number last+1, +2, +50, +99, last, last-1, last-5, +100, +150; wrong key; right header id but sealed for another advertising id; inner counter != nonce "
     "counter; truncated payloads 0..15 bytes; unknown iid} from several base state numbers, every single-bit flip of payload+tag and of the advertising id, formats x values; oracle: a "
     "notification reaches listeners / changes state only if authentic, inner = nonce counter and newer than the last accepted one; an accepted one is delivered under (1,iid) with the "
-    "format's decoding and advances description.state_num to its GSN; otherwise nothing changes; the scanner callback never raises",
+    "format's decoding and advances description.state_num to its GSN; otherwise nothing changes; the scanner callback never raises Base states include the last state numbers before 65535, replays of broadcasts recorded long ago under the same key, and the empty payload.",
     note="a 4-byte tag is forgeable with probability 2^-32 per try by design (not enumerable); only-if reading of acceptance (the upper window bound is not demanded)",
     design_ref="DESIGN.md §4 C18",
     rule="state = canonical (description.state_num, cached state_num, listener log length); transition = one advertisement processed by the real callback; history depth as reported",
